@@ -27,10 +27,12 @@ def run(name):
             return name, 'patch does not apply to the current tree', []
         meta['applies_to_current_tree'] = True
         hits = []
-        env = dict(os.environ, VERIF_REPO=repo)
+        env = dict(os.environ, VERIF_REPO=repo, VERIF_SCRATCH_DIR=tmp)
         for p in [prop] + EXTRA.get(prop, []):
             out = subprocess.run([sys.executable, '-m', 'vf.cli', p, 'quick'], cwd='/verif', env=env, capture_output=True, text=True)
             keys = [l.split('key: ', 1)[1].strip() for l in out.stdout.splitlines() if 'key: ' in l]
+            if out.returncode not in (0, 1):
+                hits.append({'check': p, 'findings': ['INFRASTRUCTURE FAILURE: ' + out.stdout[-300:]]})
             if out.returncode == 1:
                 hits.append({'check': p, 'findings': keys[:6]})
             if hits and p == prop:
